@@ -36,6 +36,22 @@ func commonLints(c *Ctx) {
 	if c.Prop == "C09" || c.Prop == "C19" {
 		elemAliasLint(c, p, pats)
 	}
+	if c.Prop != "C17" && c.Prop != "C19" {
+		rule := c.Prop + ".dead"
+		n := 0
+		var hits []Finding
+		for _, fn := range libFuncs(p, pats...) {
+			k, h := deadAccumulatorsMin(p, fn, 2)
+			n += k
+			hits = append(hits, h...)
+		}
+		if n > 0 {
+			c.Rule(rule, "DEAD ACCUMULATOR: a local built by two or more arithmetic steps (fluent calls with the local as destination) is used afterwards — compared, passed on, stored or returned; a value prepared and dropped is a term, a check or a correction that no longer reaches the result", 0)
+			c.Instance(rule, n)
+			reportFindings(c, p, rule, nil, hits, "")
+			c.Ob(rule, "-", "-", "accumulated-locals-scanned", "-", true, "")
+		}
+	}
 	if narrowRemProps[c.Prop] {
 		rule := c.Prop + ".narrowrem"
 		c.Rule(rule, "NARROW-BEFORE-REDUCE: no remainder `T(v) % m` is taken of a value converted to a narrower integer type T first (the residue would be that of v mod 2^bits), unless the source is known to fit — a remainder, a mask, a shift, a constant — or m is a power of two", 0)
